@@ -651,6 +651,11 @@ func loadBasicSegment(sloc *SegmentLoc) (Segment, error) {
 		}
 
 		buf = sloc.mref.buf[bufStart : bufStart+sloc.BufBytes]
+	} else {
+		// A segment without any key-val bytes (only the empty key, with
+		// empty or no val): keep buf non-nil, as Get()'s callers tell a
+		// found entry from a missing key by a non-nil val.
+		buf = []byte{}
 	}
 
 	return &segment{
